@@ -531,60 +531,11 @@ class Evaluator:
             return FALL
         return m(st, fr)
 
-    _match_counter = [0]
-
     def st_Match(self, st, fr):
-        """`match subject:` over value / singleton / or-patterns, a wildcard or a capture name is the if/elif chain it
-        abbreviates (the subject is evaluated once); sequence, mapping and class patterns are not modelled (UNDECIDED)."""
-        from .loader import AnalysisError
-        subj = self.expr(st.subject, fr)
-        r = self._maybe_raise(subj)
-        if r is not FALL and not _has_fall(r):
-            return r
-        if r is not FALL:
-            subj = _strip_raise(subj)
-        self._match_counter[0] += 1
-        tmp = '__match_subject_%d' % self._match_counter[0]
-        fr.env[tmp] = subj
-
-        def where():
-            return '%s:%d' % (fr.fn.module.relpath if fr.fn else '?', st.lineno)
-
-        def test_of(pat):
-            if isinstance(pat, ast.MatchValue):
-                return ast.Compare(left=ast.Name(id=tmp, ctx=ast.Load()), ops=[ast.Eq()], comparators=[pat.value])
-            if isinstance(pat, ast.MatchSingleton):
-                return ast.Compare(left=ast.Name(id=tmp, ctx=ast.Load()), ops=[ast.Is()], comparators=[ast.Constant(value=pat.value)])
-            if isinstance(pat, ast.MatchOr):
-                return ast.BoolOp(op=ast.Or(), values=[test_of(q) for q in pat.patterns])
-            if isinstance(pat, ast.MatchAs) and pat.pattern is None and pat.name is None:
-                return ast.Constant(value=True)
-            raise AnalysisError('ENGINE', '%s: match pattern %s is not modelled' % (where(), type(pat).__name__))
-
-        rest = []       # statements that stand for the cases not yet consumed (built from the last case backwards)
-        for case in reversed(st.cases):
-            pat, body = case.pattern, list(case.body)
-            if isinstance(pat, ast.MatchAs) and pat.pattern is None and pat.name is not None:
-                # a capture always matches and binds - also when its guard then fails
-                bind = ast.Assign(targets=[ast.Name(id=pat.name, ctx=ast.Store())], value=ast.Name(id=tmp, ctx=ast.Load()))
-                if case.guard is not None:
-                    stmts = [bind, ast.If(test=case.guard, body=body, orelse=rest)]
-                else:
-                    stmts = [bind] + body
-            else:
-                test = test_of(pat)
-                if case.guard is not None:
-                    test = ast.BoolOp(op=ast.And(), values=[test, case.guard])
-                stmts = [ast.If(test=test, body=body, orelse=rest)]
-            for x in stmts:
-                ast.copy_location(x, st)
-                ast.fix_missing_locations(x)
-            rest = stmts
-        res = self.block(rest, fr) if rest else FALL
-        fr.env.pop(tmp, None)
-        if r is not FALL:
-            return _replace_fall(r, res) if res is not FALL else r
-        return res
+        """`match subject:` over value / singleton / or-patterns, class patterns without sub-patterns, a wildcard or a capture
+        name is the if/elif chain it abbreviates (the subject is evaluated once); sequence and mapping patterns are not
+        modelled (UNDECIDED)."""
+        return self.block(desugar_match(st, fr.fn.module.relpath if fr.fn else '?'), fr)
 
     def st_Expr(self, st, fr):
         if isinstance(st.value, ast.Constant):
@@ -2752,6 +2703,69 @@ def _contains_continue(node):
     return False
 
 
+_MATCH_COUNTER = [0]
+
+
+def desugar_match(st, relpath='?'):
+    """The statements a `match` abbreviates: `tmp = subject` followed by an if/elif chain (see Evaluator.st_Match)."""
+    from .loader import AnalysisError
+    _MATCH_COUNTER[0] += 1
+    tmp = '__match_subject_%d' % _MATCH_COUNTER[0]
+    where = '%s:%d' % (relpath, st.lineno)
+
+    def test_of(pat):
+        if isinstance(pat, ast.MatchValue):
+            return ast.Compare(left=ast.Name(id=tmp, ctx=ast.Load()), ops=[ast.Eq()], comparators=[pat.value])
+        if isinstance(pat, ast.MatchSingleton):
+            return ast.Compare(left=ast.Name(id=tmp, ctx=ast.Load()), ops=[ast.Is()], comparators=[ast.Constant(value=pat.value)])
+        if isinstance(pat, ast.MatchOr):
+            return ast.BoolOp(op=ast.Or(), values=[test_of(q) for q in pat.patterns])
+        if isinstance(pat, ast.MatchAs) and pat.pattern is None and pat.name is None:
+            return ast.Constant(value=True)
+        if isinstance(pat, ast.MatchClass) and not pat.patterns and not pat.kwd_patterns:
+            # `case int():` - an instance test
+            return ast.Call(func=ast.Name(id='isinstance', ctx=ast.Load()), args=[ast.Name(id=tmp, ctx=ast.Load()), pat.cls], keywords=[])
+        raise AnalysisError('ENGINE', '%s: match pattern %s is not modelled' % (where, type(pat).__name__))
+
+    rest = []       # statements that stand for the cases not yet consumed (built from the last case backwards)
+    for case in reversed(st.cases):
+        pat, body = case.pattern, list(case.body)
+        if isinstance(pat, ast.MatchAs) and pat.pattern is None and pat.name is not None:
+            # a capture always matches and binds - also when its guard then fails
+            bind = ast.Assign(targets=[ast.Name(id=pat.name, ctx=ast.Store())], value=ast.Name(id=tmp, ctx=ast.Load()))
+            if case.guard is not None:
+                stmts = [bind, ast.If(test=case.guard, body=body, orelse=rest)]
+            else:
+                stmts = [bind] + body
+        else:
+            test = test_of(pat)
+            if case.guard is not None:
+                test = ast.BoolOp(op=ast.And(), values=[test, case.guard])
+            stmts = [ast.If(test=test, body=body, orelse=rest)]
+        rest = stmts
+    out = [ast.Assign(targets=[ast.Name(id=tmp, ctx=ast.Store())], value=st.subject)] + rest
+    for x in out:
+        ast.copy_location(x, st)
+        ast.fix_missing_locations(x)
+    return out
+
+
+def _without_match(stmts):
+    """the statement list with every `match` (at any depth of if / match nesting) replaced by what it abbreviates"""
+    if not any(isinstance(n, ast.Match) for s_ in stmts for n in ast.walk(s_)):
+        return stmts
+    out = []
+    for s_ in stmts:
+        if isinstance(s_, ast.Match):
+            out.extend(_without_match(desugar_match(s_)))
+        elif isinstance(s_, ast.If):
+            new = ast.If(test=s_.test, body=_without_match(s_.body), orelse=_without_match(s_.orelse))
+            out.append(ast.copy_location(new, s_))
+        else:
+            out.append(s_)
+    return out
+
+
 def _eliminate_continue(stmts, k=None, _budget=None):
     """Structured form of a loop body: `continue` ends the iteration, so the statements that follow an `if` containing
     one are moved into the paths of that `if` which do not continue (continuation-passing rewrite; statements are
@@ -2760,6 +2774,8 @@ def _eliminate_continue(stmts, k=None, _budget=None):
     k = [] if k is None else k
     if not stmts:
         return k
+    if _budget is None:
+        stmts = _without_match(stmts)
     s_, rest = stmts[0], stmts[1:]
     if isinstance(s_, ast.Continue):
         return []
